@@ -427,11 +427,23 @@ func (x *Exec) applyContract(fr *Frame, st *State, ct *FuncContract, callee *ssa
 	for k, r := range ct.Requires {
 		ctx.src = r.Src
 		g, _ := ctx.evalText(r.Text)
-		if x.top != nil && x.top.ct != nil && x.top.ct.AssumePre {
+		assumeIt := x.top != nil && x.top.ct != nil && x.top.ct.AssumePre
+		if !assumeIt && x.top != nil && x.top.ct != nil {
+			for _, n := range x.top.ct.AssumePreFor {
+				if n == shortCallee(c) {
+					assumeIt = true
+				}
+			}
+		}
+		if assumeIt {
 			// this unit only carries at-site obligations: the callee's precondition
 			// (a representation invariant of the wrappers) is assumed here
 			vc.assume(st.pc, g)
-			vc.usedAssumed["preconditions of callees are assumed (not checked) inside "+x.top.unit] = true
+			if x.top.ct.AssumePre {
+				vc.usedAssumed["preconditions of callees are assumed (not checked) inside "+x.top.unit] = true
+			} else {
+				vc.usedAssumed["precondition of "+shortCallee(c)+" is assumed (not checked) inside "+x.top.unit+": "+r.Text] = true
+			}
 			continue
 		}
 		vc.oblige(fmt.Sprintf("%s/pre@%s:%s", fr.unit, strings.TrimPrefix(site, "call:"), clauseID(r, k)), "pre", fr.unit, x.pos(pos), "precondition of "+ct.Key+": "+r.Text, st.pc, g)
